@@ -8,28 +8,47 @@ import GoPipeline.Gen.InterpVisits
 namespace GoPipeline.Interp
 open GoPipeline GoPipeline.Pipe
 
-/-- A transformer that never fails: `g` is "the single-pass expansion of a string". -/
-def pureTf (E : Type) (g : String → String) : String → Except E String := fun s => .ok (g s)
+-- `pureTf E g := fun s => .ok (g s)` (a transformer that never fails: `g` is "the single-pass
+-- expansion of a string") is defined in `Lemmas/Interp.lean`.
 
 variable {E : Type}
+
+/-! ### Collision freedom: why the hypotheses are the primed predicates
+
+  The Model's `NoCollide*` ask, for every mapping, that the images of its keys be pairwise distinct
+  (`keysNoCollide g ks := (ks.map g).Nodup`).  For ordered maps that is NOT enough for
+  "every string is transformed exactly once".  Counterexample (`#eval`ed at the end of
+  `Lemmas/Interp.lean`): `g a = b`, `g b = c`, value `{a: x, b: y}`.  The images `b, c` are distinct,
+  but `interpolateOrderedMap` renames `a → b` with `Replace` while the original entry `b` is still
+  ahead of the range cursor; `Replace` deletes that entry, it is never visited, and the result is
+  `{b: x}` instead of `{b: x, c: y}`.
+
+  The primed predicates (`NoCollideVal'`, …, `NoCollideStep'`, defined in `Lemmas/Interp.lean`) are the
+  unprimed ones with, at every ordered-map node, `keysFresh g ks` in place of `keysNoCollide g ks`:
+
+      keysFresh g ks := (ks.map g).Nodup ∧ ∀ k ∈ ks, g k = k ∨ g k ∉ ks
+
+  i.e. additionally a key that is renamed is renamed to a string that is not a key of the same
+  mapping.  For Go maps (`umap` nodes and all `UMap` fields) no condition on the keys is required:
+  model and specification build the result map by the same later-wins insertion. -/
 
 /-! ### Every string is transformed exactly once (`interp = mapStrings`) -/
 
 /-- Untyped values (unknown fields, unknown steps, plugin configs): keys and values at any depth. -/
-theorem C04_val (g : String → String) (v : Val) (h : NoCollideVal g v) :
+theorem C04_val (g : String → String) (v : Val) (h : NoCollideVal' g v) :
     interpVal (pureTf E g) v = .ok (mapVal g v) := interpVal_eq g v h
 
 /-- Every step kind, groups recursively; under env interpolation everything but the signature,
     under matrix interpolation exactly command, label, plugins, env values and unknown fields. -/
-theorem C04_step (kind : TfKind) (g : String → String) (s : Step) (h : NoCollideStep g s) :
+theorem C04_step (kind : TfKind) (g : String → String) (s : Step) (h : NoCollideStep' g s) :
     interpStep kind (pureTf E g) s = .ok (mapStep g kind s) := interpStep_eq kind g s h
 
-theorem C04_steps (kind : TfKind) (g : String → String) (l : List Step) (h : NoCollideSteps g l) :
+theorem C04_steps (kind : TfKind) (g : String → String) (l : List Step) (h : NoCollideSteps' g l) :
     interpSteps kind (pureTf E g) l = .ok (mapSteps g kind l) := interpSteps_eq kind g l h
 
 /-- The pipeline after the env block: all steps and the top-level extras. -/
 theorem C04_pipeline (g : String → String) (p : Pipeline)
-    (hs : ∀ l, p.steps = some l → NoCollideSteps g l) (hr : NoCollideUMapV g p.rem) :
+    (hs : ∀ l, p.steps = some l → NoCollideSteps' g l) (hr : NoCollideUMapV' g p.rem) :
     interpPipelineRest (pureTf E g) p = .ok (mapPipelineRest g p) := interpPipelineRest_eq g p hs hr
 
 /-! ### Determinism, structure, signature -/
@@ -69,7 +88,7 @@ theorem C12_scope_untouched (tf : String → Except E String) (c c' : CommandSte
     c'.env.map (·.map (·.1)) = c.env.map (·.map (·.1)) := interpCommand_matrix_scope tf c c' h
 
 /-- Command, label, plugin sources and configs, env values and unknown fields are transformed. -/
-theorem C12_scope_transformed (g : String → String) (c : CommandStep) (h : NoCollideCommand g c) :
+theorem C12_scope_transformed (g : String → String) (c : CommandStep) (h : NoCollideCommand' g c) :
     interpCommand .matrix (pureTf E g) c = .ok (mapCommandMatrix g c) := interpCommand_matrix_eq g c h
 
 /-! ### Coverage obligation: the visit table measured on the compiled code (taint run, regenerated
@@ -102,8 +121,8 @@ def expectedVisits : List (String × String × Nat × Nat) :=
 theorem C04_visit_table : Gen.interpVisits = expectedVisits := by decide
 
 /-! Non-vacuity -/
-example : NoCollideVal (fun s => s ++ "!") (.omap [("a", .str "x"), ("b", .seq [.str "y", .int 1])]) := by
-  simp [NoCollideVal, NoCollideKVs, NoCollideList, keysNoCollide]
+example : NoCollideVal' (fun s => s ++ "!") (.omap [("a", .str "x"), ("b", .seq [.str "y", .int 1])]) := by
+  simp [NoCollideVal', NoCollideKVs', NoCollideList', keysFresh]
 
 example : interpVal (pureTf Unit (fun s => s ++ "!")) (.omap [("a", .str "x"), ("b", .seq [.str "y", .int 1])])
     = .ok (.omap [("a!", .str "x!"), ("b!", .seq [.str "y!", .int 1])]) := by rfl
